@@ -149,7 +149,7 @@ class RefWorld:
                 self.edges[nk] = d       # every edge of both nodes is kept
         new = dict(mp)
         for p, how in (policy or {}).items():
-            if p in mp and p in op:
+            if p in mp and p in op and p not in ('GraphID', 'NodeID', 'Class') and how in ('discard', 'overwrite', 'combine'):
                 new[p] = mp[p] if how == 'discard' else op[p] if how == 'overwrite' else [mp[p], op[p]]
         self.nodes[me] = new
         del self.nodes[ot]
